@@ -1,5 +1,6 @@
 //! Correspondence harness: runs the real almindor/mipidsi crate on cases read from stdin (one per
 //! line) and prints one line per case: `<Coq term> ### <diagnostics>`.
+mod misc;
 mod mocks;
 mod models;
 mod prog;
@@ -40,6 +41,12 @@ fn main() {
         let kind = t.s();
         let res = match kind {
             "prog" => prog::run(&mut t),
+            "dcs" => misc::dcs(&mut t),
+            "orient" => misc::orient(&mut t),
+            "angle" => misc::angle(&mut t),
+            "anglesum" => misc::anglesum(&mut t),
+            "color" => misc::color(&mut t),
+            "colorsum" => misc::colorsum(&mut t),
             "models" => {
                 let rows: Vec<String> = models::model_table()
                     .iter()
